@@ -81,6 +81,7 @@ def check(cases, name, shard=25, par=14, workers=14, max_tokens=30000):
         jobs.append(("%s_%04d" % (name, j // shard), text))
     outs = core.coq_eval_many(jobs, par=par)
     disagreements = []
+    irreproducible = []
     runs_total = 0
     model_timeouts = 0
     import re
@@ -101,12 +102,22 @@ def check(cases, name, shard=25, par=14, workers=14, max_tokens=30000):
             runs_total += len(cases[i][2])
             for b in bad:
                 am, engine, runs, opts = cases[i]
+                # a disagreement must be replayable: the implementation is run once more on this case, alone; if that run gives other
+                # tokens than the first one (a loaded host: the watchdog, a thread of the sync engine that was scheduled late), the
+                # first run says nothing about the code and is counted as irreproducible instead of being reported
+                try:
+                    again = impl_case((am, engine, [runs[b]], opts))[0]
+                except BaseException:
+                    again = None
+                if again is not None and again != results[i][b]:
+                    irreproducible.append(i)
+                    continue
                 disagreements.append(dict(component="K-macro-" + engine[0], case=dict(config=am.to_config(**{k: v for k, v in (opts or {}).items() if k not in ('probe_can', 'hook_faults')}), engine=engine,
                                           ctx=runs[b][0], events=runs[b][1], case_index=i, run_index=b, opts=opts,
                                           am_b64=__import__('base64').b64encode(__import__('pickle').dumps(am)).decode()),
                                           impl=results[i][b], model="differs (rerun with --replay for the model's trace)",
                                           am=am))
-    return disagreements, dict(machines=len(cases), runs=runs_total, skipped_large=skipped_large, impl_timeouts=impl_timeouts, model_out_of_fuel=model_timeouts, timed_out_runs=timed_out_runs), results, cases
+    return disagreements, dict(machines=len(cases), runs=runs_total, skipped_large=skipped_large, impl_timeouts=impl_timeouts, model_out_of_fuel=model_timeouts, timed_out_runs=timed_out_runs, irreproducible_impl_runs=len(irreproducible)), results, cases
 
 
 def model_trace(am: AM, engine, cx, events, name="replay", probe=False):
